@@ -44,6 +44,10 @@ const (
 	rangeStreamBatch  = 300
 
 	revisionValueLengthWithDeletionFlag = 9
+
+	// setCompactRevisionAttempts is how often a compaction scan tries to raise the compact revision when it loses
+	// the compare against a concurrent compaction
+	setCompactRevisionAttempts = 3
 )
 
 // NewScanner create a Scanner
@@ -610,18 +614,32 @@ func (w *worker) compactIfExpired(iter storage.Iter, rawKey []byte, revision uin
 func (r *scanner) checkCompactRace(ctx context.Context, revision uint64, compact bool) error {
 
 	if compact {
-		// compact operation, just try to set the compact revision
-		// if it's error, try next time
-		// never lower a compact revision that has already been recorded
-		if val, getErr := r.store.Get(ctx, r.config.CompactKey); getErr == nil && len(val) == 8 &&
-			binary.BigEndian.Uint64(val) > revision {
-			return nil
-		}
+		// compact operation: raise the compact revision to revision, never lower it. The write is conditional on
+		// the value that was read, so that a compaction that is overtaken by a newer one between its read and its
+		// write cannot pull the record back; a lost compare is re-read and re-compared a few times
 		bs := make([]byte, 8)
 		binary.BigEndian.PutUint64(bs, revision)
-		batch := r.store.BeginBatchWrite()
-		batch.Put(r.config.CompactKey, bs, 0)
-		return batch.Commit(ctx)
+		for attempt := 1; ; attempt++ {
+			val, getErr := r.store.Get(ctx, r.config.CompactKey)
+			if getErr != nil && getErr != storage.ErrKeyNotFound {
+				// if it's error, try next time
+				return getErr
+			}
+			if getErr == nil && len(val) == 8 && binary.BigEndian.Uint64(val) >= revision {
+				// never lower a compact revision that has already been recorded
+				return nil
+			}
+			batch := r.store.BeginBatchWrite()
+			if getErr == nil {
+				batch.CAS(r.config.CompactKey, bs, val, 0)
+			} else {
+				batch.PutIfNotExist(r.config.CompactKey, bs, 0)
+			}
+			err := batch.Commit(ctx)
+			if err == nil || !errors.Is(err, storage.ErrCASFailed) || attempt >= setCompactRevisionAttempts {
+				return err
+			}
+		}
 	}
 
 	// if scan is triggered by range and range stream, check compact race
